@@ -288,6 +288,14 @@ class World:
         t[pr + '/share/flink'] = ('link', 0, 'foreign.txt', T_BASE * 10**9)
         t[pr + '/keep'] = ('dir', 0o700, None, T_BASE * 10**9)
         t['etc'] = ('dir', 0o755, None, T_BASE * 10**9)
+        # the destination of a directory that an install_subdir() rule EXCLUDES already exists (as after an earlier
+        # install of another package into it): the exclusion must hold all the same
+        for spec in self.job['rules']:
+            if spec[0] == 'subdir_excl':
+                st = spec[1]
+                chain = [pr, 'share', M.nm(st, 'xdir'), M.nm(st, 'treec'), 'other', M.nm(st, 'deep')]
+                for i in range(2, len(chain) + 1):
+                    t.setdefault('/'.join(chain[:i]), ('dir', 0o755, None, T_BASE * 10**9))
         return t
 
 
